@@ -144,6 +144,13 @@ enum What {
     ValveChallenges { stratum: u8, lo: u32, hi: u32 },
     Gs3Challenges { lo: i64, hi: i64, special: bool },
     JavaHandshake,
+    /// every protocol-level entry point in ONE process, in list order and then in reverse (or the other way round): the
+    /// exchange of a query must not depend on which queries the process made before it. These are the first cases of the
+    /// list, so each starts in a fresh worker process.
+    Sequence { reverse_first: bool },
+    /// the Minecraft fallback chains against a server on which only some variants answer: the chain must stop with the first
+    /// step that is answered (nothing is sent after it)
+    McChain { entry: u8, bits: u8 },
 }
 
 #[derive(Clone)]
@@ -156,6 +163,24 @@ const SYMS: [u8; 12] = [0x00, 0x01, 0x0A, 0x22, 0x41, 0x49, 0x5C, 0x7F, 0x80, 0x
 
 fn build(tier: Tier) -> Vec<Case> {
     let mut v = Vec::new();
+    v.push(Case { label: "all protocol entry points in one fresh process: list order, then reverse order".into(), what: What::Sequence { reverse_first: false } });
+    v.push(Case { label: "all protocol entry points in one fresh process: reverse order, then list order".into(), what: What::Sequence { reverse_first: true } });
+    for entry in 0 .. 5u8 {
+        for bits in [1u8, 2, 4, 8, 16, 2 | 4 | 8 | 16, 4 | 16, 8 | 16] {
+            let legacy_only = entry >= 3;
+            if legacy_only && bits & (4 | 8 | 16) == 0 {
+                continue;
+            }
+            v.push(Case {
+                label: format!(
+                    "minecraft fallback chain via {} against a server answering only {}",
+                    ["protocol::query", "games::minecraft::query", "the definition-driven 'minecraft' entry", "protocol::query_legacy", "games::minecraft::query_legacy"][entry as usize],
+                    [(1u8, "java"), (2, "bedrock"), (4, "legacy 1.6"), (8, "legacy 1.4"), (16, "beta 1.8")].iter().filter(|(b, _)| bits & b != 0).map(|(_, n)| *n).collect::<Vec<_>>().join("+")
+                ),
+                what: What::McChain { entry, bits },
+            });
+        }
+    }
     let mut ids: Vec<&&str> = gamedig::GAMES.keys().collect();
     ids.sort();
     for id in ids {
@@ -365,6 +390,80 @@ impl Prop for C09 {
                         }
                     }
                 }
+            }
+            What::Sequence { reverse_first } => {
+                let targets: Vec<Target> = protocol_targets().into_iter().filter(|t| t.family != Family::Master).collect();
+                let n = targets.len();
+                let mut order: Vec<usize> = (0 .. n).collect();
+                if reverse_first {
+                    order.reverse();
+                }
+                let back: Vec<usize> = order.iter().rev().copied().collect();
+                order.extend(back);
+                // arrays are compared as multisets (sets and maps inside the responses have no fixed iteration order)
+                fn canon(v: &Value) -> Value {
+                    match v {
+                        Value::Array(a) => {
+                            let mut items: Vec<Value> = a.iter().map(canon).collect();
+                            items.sort_by_key(|x| x.to_string());
+                            Value::Array(items)
+                        }
+                        Value::Object(m) => Value::Object(m.iter().map(|(k, x)| (k.clone(), canon(x))).collect()),
+                        other => other.clone(),
+                    }
+                }
+                let mut first: Vec<Option<String>> = vec![None; n];
+                for (pos, i) in order.iter().enumerate() {
+                    let t = &targets[*i];
+                    crate::crumb::mark(ctx.case, &[pos as u32]);
+                    let x = run_query((t.server)(), Box::new(Faithful), Chooser::new(&[]), || (t.call)(None));
+                    ctx.account(&x, 0);
+                    ctx.distinct_key(&(pos, t.name.clone()));
+                    let (p, r) = t.toggles.unwrap_or((GatherToggle::Try, GatherToggle::Try));
+                    let fam = if t.name.starts_with("jc2m") { Family::Jc2m } else { t.family };
+                    let exp = if t.name.starts_with("battalion1944") { expected_exchange(fam, GatherToggle::Try, GatherToggle::Try, IP4, PORT, PORT) } else { expected_exchange(fam, p, r, IP4, PORT, PORT) };
+                    compare(ctx, &x, &exp, &format!("{}:after-other-queries-in-the-same-process", family_tag(fam)), &format!("{} as query {} of the process", t.name, pos + 1));
+                    let outcome = match &x.outcome {
+                        crate::run::Outcome::Ok(v) => format!("Ok {}", canon(v)),
+                        other => other.class(),
+                    };
+                    match &first[*i] {
+                        None => first[*i] = Some(outcome),
+                        Some(f) if *f != outcome => {
+                            ctx.violation(
+                                format!("same-query-different-answer-later-in-the-process:{}", family_tag(fam)),
+                                &[pos as u32],
+                                format!("{}: query {} of the process returns something else than the same query did earlier in the process, against the same server", t.name, pos + 1),
+                                clip(&outcome, 600),
+                                clip(f, 600),
+                                render_log(&x.log),
+                            );
+                        }
+                        Some(_) => {}
+                    }
+                }
+            }
+            What::McChain { entry, bits } => {
+                use gamedig::games::minecraft as mc;
+                let x = run_query(mc_server(bits), Box::new(Faithful), Chooser::new(&[]), || match entry {
+                    0 => mc::protocol::query(&addr(), None, None).map(|r| to_json(&r)),
+                    1 => mc::query(&IP4, Some(PORT)).map(|r| to_json(&r)),
+                    2 => gamedig::query_with_timeout_and_extra_settings(gamedig::GAMES.get("minecraft").unwrap(), &IP4, Some(PORT), None, None).map(|r| to_json(&r.as_json())),
+                    3 => mc::protocol::query_legacy(&addr(), None).map(|r| to_json(&r)),
+                    _ => mc::query_legacy(&IP4, Some(PORT)).map(|r| to_json(&r)),
+                });
+                ctx.account(&x, 0);
+                ctx.distinct_key(&(entry, bits));
+                let fam = if entry >= 3 { Family::McLegacyAuto } else { Family::McAuto };
+                let full = expected_exchange(fam, GatherToggle::Try, GatherToggle::Try, IP4, PORT, PORT);
+                // steps of the chain in order, with the variant bit each one is answered by
+                let step_bits: &[u8] = if entry >= 3 { &[4, 8, 16] } else { &[1, 2, 4, 8, 16] };
+                let stop = step_bits.iter().position(|b| bits & b != 0).map_or(full.len(), |p| p + 1);
+                let exp: Vec<ConnExpect> = full.into_iter().take(stop).collect();
+                if x.outcome.ok().is_none() {
+                    ctx.violation(format!("mc-chain-fails:{}", family_tag(fam)), &[], format!("{}: a variant answers but the query fails", case.label), x.outcome.describe_json(), "Ok(..)", render_log(&x.log));
+                }
+                compare(ctx, &x, &exp, &format!("{}:chain-stops-at-the-answering-step", family_tag(fam)), &case.label);
             }
             What::ValveChallenges { stratum, lo, hi } => {
                 for i in lo .. hi {
